@@ -3,35 +3,25 @@ From Coq Require Import List Arith ZArith Bool.
 Import ListNotations.
 From PS Require Import Recon.SSPOR Recon.SSPORProofs.
 
-(* For every history of fit / update_n_basis_modes / set_number_of_sensors / observer calls that all succeed, on a
-   model whose basis has a user-chosen number of modes (Identity(k), SVD(k), RandomProjection(k)), with any
-   optimizer configuration: the observable state (which basis matrix, which ranking, how many sensors) is the one
-   obtained by configuring a never-fitted model with the user's settings [reset s] and fitting it once on the data
-   of the last fit with the last seed. *)
-Theorem C15_refit_fresh_no_default : forall b bm o v s0 h s es r,
-  ctor b bm o v = inl s0 -> (bm <> None \/ b <> Identity) ->
-  run s0 h = (s, es) -> Forall (eq None) es -> ranked s = Some r ->
-  exists s', fit (reset s) (bt_data (mt_basis (rt_mat r))) (rt_seed r) = (s', None) /\ obs s' = obs s.
-Proof. exact refit_fresh_no_default. Qed.
-Print Assumptions C15_refit_fresh_no_default.
-
-(* General form, any basis: holds along histories in which every fit meets [fit_ok_cond] (nothing frozen, or the
-   frozen Identity default equals the number of examples of the new data). *)
-Theorem C15_refit_fresh_partial : forall b bm o v s0 h s es r,
-  ctor b bm o v = inl s0 -> run s0 h = (s, es) -> Forall (eq None) es -> ops_ok s0 h ->
-  ranked s = Some r ->
+(* For EVERY history of fit / update_n_basis_modes / set_number_of_sensors / observer calls that all succeed, on a model
+   with any basis (Identity with or without a user-chosen number of modes, SVD(k), RandomProjection(k)) and any optimizer
+   configuration: the observable state (which basis matrix, which ranking, how many sensors) is the one obtained by
+   configuring a never-fitted model with the user's settings [reset s] and fitting it once on the data of the last fit
+   with the last seed.  No side condition: since the repair of the Identity default (fix commit, known_findings.json)
+   nothing in the model is frozen by an earlier fit. *)
+Theorem C15_refit_fresh : forall b bm o v s0 h s es r,
+  ctor b bm o v = inl s0 -> run s0 h = (s, es) -> Forall (eq None) es -> ranked s = Some r ->
   exists s', fit (reset s) (bt_data (mt_basis (rt_mat r))) (rt_seed r) = (s', None) /\ obs s' = obs s.
 Proof. exact refit_fresh. Qed.
-Print Assumptions C15_refit_fresh_partial.
+Print Assumptions C15_refit_fresh.
 
-(* ... and the unrestricted statement is FALSE of the faithful model: Identity() freezes its default number of
-   modes at the first fit (basis/_identity.py:57-59).  Recorded as a known finding. *)
-Theorem C15_identity_default_refuted :
-  exists s0 s es r, ctor Identity None OQR VNone = inl s0 /\ run s0 [Fit dA None; Fit dB None] = (s, es) /\
-    Forall (eq None) es /\ ranked s = Some r /\
-    forall s', fit (reset s) (bt_data (mt_basis (rt_mat r))) (rt_seed r) = (s', None) -> obs s' <> obs s.
-Proof. exact identity_default_frozen_refuted. Qed.
-Print Assumptions C15_identity_default_refuted.
+(* the history that used to refute the statement (Identity() fitted on 3 examples, then on 5) now ends in the state of a
+   fresh model fitted on the 5 examples *)
+Theorem C15_identity_default_recomputed :
+  exists s0 s es s', ctor Identity None OQR VNone = inl s0 /\ run s0 [Fit dA None; Fit dB None] = (s, es) /\
+    Forall (eq None) es /\ fit s0 dB None = (s', None) /\ obs s' = obs s.
+Proof. exact identity_default_recomputed. Qed.
+Print Assumptions C15_identity_default_recomputed.
 
 (* update_n_basis_modes(k), k no larger than the fitted basis: re-ranks on the first k modes of the SAME basis *)
 Theorem C15_update_modes_keeps_basis : forall s k tk avail s',
